@@ -32,4 +32,5 @@ View == <<[S EXCEPT !.out = NoOut], M>>
 Props == M.bad = {}
 \* reachability of the situations the report talks about (configs that EXPECT a violation)
 NoSameLT == "same_ltime_queries" \notin M.tags
+NoDiscard == "addressed_reply_discarded" \notin M.tags
 =============================================================================
